@@ -41,7 +41,7 @@ var genWorkload = rapid.Custom(func(t *rapid.T) Workload {
 			op := WOp{Kind: rapid.SampledFrom(kinds).Draw(t, "k")}
 			switch op.Kind {
 			case "put":
-				op.K, op.S = rapid.IntRange(0, nkeys-1).Draw(t, "key"), rapid.IntRange(1, 3).Draw(t, "s")
+				op.K, op.S = rapid.IntRange(0, nkeys-1).Draw(t, "key"), rapid.SampledFrom([]int{1, 2, 3, 1, 2, 3, 0}).Draw(t, "s") // 0: cache.Length of an empty value
 				if bigVals {
 					op.S = min(3, w.Limit-rapid.IntRange(0, 1).Draw(t, "slack"))
 				}
